@@ -54,12 +54,12 @@ Sign(c, hf, sk, m, a) ==
 \* Sign-to-contract (btclib's own scheme and tags; ssa.py / commit_nonce.py state it): the committed value is hashed into the auxiliary data, the nonce
 \* BIP340 derives from that -- normalised to its even-y point R, the receipt -- is moved by the tweak T = hash(R || value), taken as the nonce derivation
 \* takes a candidate: the leftmost nlen bits, hashed again while out of 1..n-1; the signature is BIP340's over the moved nonce
-TH(hf, tag, m) == LET t == H(hf, Utf8(tag)) IN H(hf, t \o t \o m)
+S2CHash(hf, tag, m) == LET t == H(hf, Utf8(tag)) IN H(hf, t \o t \o m)
 RECURSIVE S2CTweakFrom(_, _, _)
-S2CTweakFrom(hf, t, n) == LET v == Bits2Int(t, n) IN IF ~BIsZero(v) /\ BLt(v, n) THEN v ELSE S2CTweakFrom(hf, TH(hf, "s2c/bip340/point", t), n)
-S2CTweak(c, hf, R, value) == S2CTweakFrom(hf, TH(hf, "s2c/bip340/point", SecCompressed(c, R) \o value), c.n)
+S2CTweakFrom(hf, t, n) == LET v == Bits2Int(t, n) IN IF ~BIsZero(v) /\ BLt(v, n) THEN v ELSE S2CTweakFrom(hf, S2CHash(hf, "s2c/bip340/point", t), n)
+S2CTweak(c, hf, R, value) == S2CTweakFrom(hf, S2CHash(hf, "s2c/bip340/point", SecCompressed(c, R) \o value), c.n)
 S2CSign(c, hf, sk, m, a, value) ==
-    LET base == Sign(c, hf, sk, m, TH(hf, "s2c/bip340/data", a \o value))
+    LET base == Sign(c, hf, sk, m, S2CHash(hf, "s2c/bip340/data", a \o value))
         P    == RMulG(c, sk)
         d    == IF HasEvenY(P) THEN sk ELSE BSub(c.n, sk)
         R0   == RMulG(c, base.k0)
